@@ -213,8 +213,22 @@ def run(ctx):
     # create_checkpoint come from to_relative; none of them may be reachable from a store mutation of the same call.
     ccf = P.fn('rip_workspace::Workspace::create_checkpoint')
     ctx.touch(ccf)
-    res_cc = ccf.calls(r'^rip_workspace::Workspace::to_relative$')
-    eff_cc = [s_ for s_ in ccf.sites() if site_effects(s_) & {'FsWrite'}]
+    def here_or_in_closure(fn, pred):
+        """sites of fn satisfying pred, plus — for a closure built in fn whose body (nested closures included) has such a
+        site — every call of fn that is handed the closure or something made from it (map(..) is lazy: collect() runs it)."""
+        out = [s_ for s_ in fn.sites() if pred(s_)]
+        for bi, b in enumerate(fn.blocks):
+            for st in b['s']:
+                rv = st.get('rv') or {}
+                if rv.get('ak') == 'closure' and rv.get('def') in P.fns:
+                    inner = [g_ for g_ in P.family(rv['def']) if g_.path.startswith(rv['def'])]
+                    if any(pred(x) for g_ in inner for x in g_.sites()):
+                        cl = st['d']['l']
+                        # only a value whose type still carries the closure can run it (after collect() it is gone)
+                        out += [s_ for s_ in fn.sites() if any(cl in reads_locals(fn, a_) and op_place(a_) is not None and 'closure' in (fn.lty(op_place(a_)['l']) or '') for a_ in s_.args)]
+        return out
+    res_cc = here_or_in_closure(ccf, lambda s_: re.search(r'^rip_workspace::Workspace::to_relative$', s_.callee or '') is not None)
+    eff_cc = here_or_in_closure(ccf, lambda s_: bool(site_effects(s_) & {'FsWrite'}))
     ctx.floor('C13.3', 'resolver calls in create_checkpoint', len(res_cc), 1)
     ctx.floor('C13.3', 'store mutations in create_checkpoint', len(eff_cc), 3)
     late = []
